@@ -41,7 +41,8 @@ class PersistentQueue(IPersistentList[T], IWithMeta, ILispObject):
         return seq_equals(self, other)
 
     def __hash__(self):
-        return hash(self._inner)
+        # must agree with ISeq.__hash__: equal sequential collections hash alike
+        return hash(tuple(self))
 
     def __iter__(self):
         yield from self._inner
